@@ -81,23 +81,27 @@ class Recording:
                 return networkx.gnp_random_graph(n, p, seed=Shim())
         self.saved_nx = graph_build.networkx
         graph_build.networkx = NxShim()
-        # parse window of cnfgen
-        self.saved_parse = tool_cnfgen.parse_command_line
+        # parse window of cnfgen / pbgen
+        self.saved_parse = {}
+        for m in (tool_cnfgen, tool_pbgen):
+            orig = m.parse_command_line
+            self.saved_parse[m] = orig
 
-        def parse_wrapper(*a, **kw):
-            rec.in_parse += 1
-            try:
-                return rec.saved_parse(*a, **kw)
-            finally:
-                rec.in_parse -= 1
-        tool_cnfgen.parse_command_line = parse_wrapper
+            def parse_wrapper(*a, _orig=orig, **kw):
+                rec.in_parse += 1
+                try:
+                    return _orig(*a, **kw)
+                finally:
+                    rec.in_parse -= 1
+            m.parse_command_line = parse_wrapper
         return self
 
     def __exit__(self, *a):
         for n, f in self.saved.items():
             setattr(_mod_random, n, f)
         graph_build.networkx = self.saved_nx
-        tool_cnfgen.parse_command_line = self.saved_parse
+        for m, orig in self.saved_parse.items():
+            m.parse_command_line = orig
         return False
 
     # -- wrappers
@@ -206,7 +210,7 @@ def enc_world(argv):
             has_f, pn, pd = 1, fr.numerator, fr.denominator
         tab += enc_str(t) + [has_i, iv, has_f, pn, pd]
         ftab += enc_str(t) + enc_str(str(f))
-    base = [(k, v) for k, v in cnfgen.CNF().header.items() if k != "description"]
+    base = [(k, v) for k, v in cnfgen.CNF().header.items() if k != "description"]     # the same entries for OPB()
     hdr = [len(base)]
     for k, v in base:
         hdr += enc_str(k) + enc_str(v)
@@ -229,7 +233,7 @@ def run_real(argv, pre_seed):
     with Recording() as rec:
         try:
             with contextlib.redirect_stdout(buf), contextlib.redirect_stderr(io.StringIO()):
-                tool_cnfgen.cli(list(argv), mode="output")
+                (tool_pbgen if argv[0] == "pbgen" else tool_cnfgen).cli(list(argv), mode="output")
             out = ("text", buf.getvalue())
         except CLIError:
             out = ("E", "cliError")
@@ -258,7 +262,7 @@ class RunCase(Case):
         out, rec = run_real(self._argv, 4242)
         r0, rs, seeds, bad = split_streams(rec.events)
         self._state.update(out=out, seeds=seeds, bad=bad, unknown=list(rec.unknown), events=rec.events)
-        self._req = req("clirun", enc_argv(self._argv), enc_world(self._argv), enc_rng(r0), enc_rng(rs))
+        self._req = req("clirun", enc_str(self._argv[0]), enc_argv(self._argv), enc_world(self._argv), enc_rng(r0), enc_rng(rs))
         if out[0] == "text":
             ng = sum(1 for e in rec.events if e[0] == "draw" and e[1] == "g")
             nf = sum(1 for e in rec.events if e[0] == "draw" and e[1] == "f")
@@ -376,6 +380,12 @@ def clirun_cases(ctx):
         pres = prefixes if tier == "thorough" else [prefixes[0], prefixes[1 + i % (len(prefixes) - 1)], prefixes[1 + (i + 2) % (len(prefixes) - 1)]]
         for p in pres:
             out.append(RunCase(["cnfgen"] + p + c, cls=c[0] + (":seed" if any(x in p for x in ("--seed", "-S")) else ":noseed")))
+        # pbgen: the same sub-commands, OPB rendering
+        if tier == "thorough" or i % 3 == 0:
+            p = prefixes[1 + (i // 3) % (len(prefixes) - 1)]
+            out.append(RunCase(["pbgen"] + p + c, cls="pbgen:" + c[0] + ":seed"))
+            if i % 6 == 0:
+                out.append(RunCase(["pbgen"] + c, cls="pbgen:" + c[0] + ":noseed"))
     return out
 
 
